@@ -433,7 +433,10 @@ def run_e2e(case):
         before = sequence_data.omega.clone()
         res = orig(sequence_data, config)
         per_run.append(res)
+        # keep the tensor itself alive: a freed storage may be handed out again to a later trajectory, which
+        # would make equal data_ptr values meaningless (false alarm seen in the thorough tier)
         info.append({"bad": tuple(sequence_data.bad_atoms), "ptr": sequence_data.omega.data_ptr(),
+                     "alive": sequence_data.omega,
                      "before": before, "after": sequence_data.omega.clone(), "spe": sequence_data.state_prep_error})
         return res
 
